@@ -150,6 +150,19 @@ def _ints_around(lo: int, hi: int, out_of_range: bool) -> st.SearchStrategy:
     return st.one_of(inside, inside, outside, float_inputs)
 
 
+def _utf8_bytes(n: int, exact: bool) -> st.SearchStrategy:
+    """Byte strings that are the UTF-8 encoding of some text with multi-byte characters: at most (exactly) n bytes long."""
+
+    def fit(s: str) -> bytes:
+        b = s.encode("utf-8")
+        while len(b) > n:
+            s = s[:-1]
+            b = s.encode("utf-8")
+        return b + b"x" * (n - len(b)) if exact else b
+
+    return st.one_of(st.text(alphabet="a\u00e9\u20ac\U0001f600\x00\ufeff\u65e5", max_size=max(n, 1)), st.text(max_size=max(n, 1))).map(fit)
+
+
 def values(spec: typing.Any, out_of_range: bool = False, omit: bool = False) -> st.SearchStrategy:
     """Model values for `spec`.  out_of_range: numbers beyond the primitive's range; omit: struct keys may be missing."""
     k = spec[0]
@@ -176,12 +189,12 @@ def values(spec: typing.Any, out_of_range: bool = False, omit: bool = False) -> 
         )
     if k == "fixed":
         if spec[1][0] == "byte":
-            return st.binary(min_size=spec[2], max_size=spec[2]).map(lambda b: {"b": b.hex()})
+            return st.one_of(st.binary(min_size=spec[2], max_size=spec[2]), _utf8_bytes(spec[2], True)).map(lambda b: {"b": b.hex()})
         return st.lists(values(spec[1], out_of_range, omit), min_size=spec[2], max_size=spec[2])
     if k == "var":
         cap = spec[2]
         if spec[1][0] == "byte":
-            return st.binary(max_size=cap).map(lambda b: {"b": b.hex()})
+            return st.one_of(st.binary(max_size=cap), _utf8_bytes(cap, False)).map(lambda b: {"b": b.hex()})
         if spec[1][0] == "utf8":
             # cut at a character boundary so that the byte length fits the capacity (multi-byte characters at the edge)
             def fit(s: str) -> str:
